@@ -60,6 +60,20 @@ def judge_doc(case):
     from vlib.step import Failure, classify_exc
     from mosromgr.mostypes import MosFile
     import warnings
+    if (case.get('source') or '').startswith('s3:'):
+        from checks.c08 import encoded
+        from vlib import fakes3
+        from vlib.step import Failure as F_, classify_exc as ce_
+        raw = encoded(case['doc'], case['source'].split(':')[1])
+        try:
+            with fakes3.FakeS3({'bkt': {'k/doc.mos.xml': raw}}):
+                MosFile.from_s3('bkt', 'k/doc.mos.xml')
+        except Exception as e:
+            name, _m, is_mos, site = ce_(e)
+            if not is_mos:
+                return [F_(PROP, f'C12|classify-s3|{name}|{site}', f'from_s3 of a well-formed document ({case["source"]}) '
+                           f'raised {name} at {site}: {e}', 'MosRoMgrException', name)]
+        return []
     if case.get('source'):
         from checks import c08
         name, site = c08.classify(case['doc'], case['source'], 'ignore')
@@ -164,7 +178,7 @@ def shard_ea_shapes(args):
             continue
         doc = doc.replace('</roID>', ' \u00e9</roID>', 1)
         for source in ('file', 'file:latin1', 'file:utf16', 'file:utf16be', 'bytes:latin1', 'bytes:utf16',
-                       'bytes:utf8bom'):
+                       'bytes:utf8bom', 's3:latin1', 's3:utf16'):
             case = {'doc': doc, 'source': source}
             col.record(case, True, ['classification:encoded-' + source.split(':')[0]], judge_doc(case))
     # ... and declaring an encoding that the parser underneath cannot decode
